@@ -61,3 +61,12 @@ Proof. exact a_typical_document_is_accepted. Qed.
 Theorem C11_pinned_integer_recogniser_refuted : exists s, is_integer_pinned s = true /\ ~ integer_literal s.
 Proof. exact is_integer_pinned_refuted. Qed.
 Print Assumptions C11_pinned_integer_recogniser_refuted.
+
+(* the literal recognisers applied before atof / atoi, as repaired: IsInteger accepts exactly the documented integer
+   literals, and whatever IsFloat accepts is a documented floating-point literal (so atof never sees anything else) *)
+Theorem C11_integer_recogniser_exact (s : str) : is_integer s = true <-> integer_literal s.
+Proof. exact (is_integer_spec s). Qed.
+Print Assumptions C11_integer_recogniser_exact.
+Theorem C11_float_recogniser_sound (s : str) : is_float s = true -> float_literal s.
+Proof. exact (is_float_sound s). Qed.
+Print Assumptions C11_float_recogniser_sound.
